@@ -137,12 +137,22 @@ def c11c(ck, prog):
     if len(fs) != 1:
         raise AnchorLost("SetHeaders::SetCookie not found")
     f = fs[0]
-    pushes = f.calls_to(r"Vec::<T, A>::push$")
-    vec_new = [st for bb in f.live_blocks() for st in f.blocks[bb]["st"] if st["k"] == "=" and "into_vec" in str(st)] + f.calls_to(r"into_vec$|box_assume_init_into_vec")
-    # two arms: None => vec![c], Some(v) => v.push(c): exactly one insertion per path
-    rows_some = [c for c in pushes if paths.has_fact(f, prog, c.bb, lambda fa: fa.kind == "variant" and fa.allowed == {"Some"})]
-    ok = len(rows_some) == 1 and (len(vec_new) >= 1)
-    ck.ob(R, "one-element-per-call", ok, f.loc(None), "" if ok else "SetHeaders::SetCookie does not add exactly one element per call (push under Some: %d, new vec: %d)" % (len(rows_some), len(vec_new)), how="None => vec![cookie]; Some(v) => v.push(cookie)")
+    # exactly one insertion on every path (`None => vec![c], Some(v) => v.push(c)`, or `get_or_insert_with(Vec::new).push(c)`):
+    # count the insertion events (a push, or a vector literal built from the cookie) along every flag-consistent path
+    from .lib import pathsens
+    ev_blocks = {}
+    for c in f.calls_to(r"Vec::<T, A>::(push|insert|extend|extend_from_slice|append)$"):
+        ev_blocks[c.bb] = "add"
+    for c in f.calls_to(r"into_vec$|box_assume_init_into_vec"):
+        ev_blocks[c.bb] = "add"
+    for c in f.calls_to(r"Vec::<T, A>::(pop|clear|remove|swap_remove|truncate|drain|retain)$"):
+        ev_blocks[c.bb] = "del"
+    exits = set(f.exits())
+    res = pathsens.explore(f, 0, lambda bb: bb in exits, lambda bb: ev_blocks.get(bb), 0, lambda st, tok: min(st + 1, 2) if tok == "add" else -1)
+    counts = sorted(res.keys())
+    ok = counts == [1]
+    ck.ob(R, "one-element-per-call", ok, f.loc(None), "" if ok else "SetHeaders::SetCookie does not add exactly one element per call (insertions per path: %r; -1 = an element is removed)" % counts,
+          how="every path through SetCookie performs exactly one insertion into the cookie list (%d insertion site(s))" % sum(1 for v in ev_blocks.values() if v == "add"))
     lens = [(f.const_args(c)[0] or {}).get("s") for c in f.calls() if c.name == "len" and f.const_args(c)[0]]
     ok = sorted(lens) == sorted(["Set-Cookie: ", "\r\n"])
     ck.ob(R, "size-accounted", ok, f.loc(None), "" if ok else "SetCookie accounts literals %r, the writer emits 'Set-Cookie: ' and CRLF per cookie" % lens, how="size += len(\"Set-Cookie: \") + len(value) + len(CRLF)")
